@@ -128,6 +128,27 @@ def _worker(args):
     common.load_biobalm()
     mod = importlib.import_module(f"props.{pid}")
     t0 = time.time()
+    dbg = isinstance(case, dict) and case.get("_debug")
+    saved_fd = None
+    if dbg:
+        import biobalm.petri_net_translation as _pnt
+        _pnt.DEBUG = True
+        sys.stdout.flush()
+        saved_fd = os.dup(1)
+        _dn = os.open(os.devnull, os.O_WRONLY)
+        os.dup2(_dn, 1)
+        os.close(_dn)
+    try:
+        return _worker_inner(pid, case, timeout, mod, t0)
+    finally:
+        if dbg:
+            _pnt.DEBUG = False
+            sys.stdout.flush()
+            os.dup2(saved_fd, 1)
+            os.close(saved_fd)
+
+
+def _worker_inner(pid, case, timeout, mod, t0):
     if isinstance(case, dict) and case.get("_decoy") is not None:
         # history of the process: a related network (same names, other positions / signs / logic) is put
         # through the same calls first; its results are ignored, the real case must be unaffected by it
